@@ -54,7 +54,8 @@ Lemma core_fx fx j0 ops :
   /\ absorbing j0 (observe_fx fx j0 ops) /\ timeout_deletes j0 (observe_fx fx j0 ops)
   /\ at_most_once ops (observe_fx fx j0 ops) /\ frame j0 ops (observe_fx fx j0 ops)
   /\ (direct j0 = false -> evict_unbound false ops (observe_fx fx j0 ops))
-  /\ write_absorbing j0 (observe_fx fx j0 ops).
+  /\ write_absorbing j0 (observe_fx fx j0 ops)
+  /\ evict_target (observe_fx fx j0 ops).
 Proof.
   rewrite observe_fx_eq. repeat match goal with |- _ /\ _ => split end.
   - apply obs_length.
@@ -65,12 +66,13 @@ Proof.
   - apply (trace_frame fx ops (init_state j0)).
   - intros D. apply (trace_unbound fx ops (init_state j0) false (W_init j0) (oinv_false _) D).
   - apply (trace_wabs fx ops (init_state j0) (W_init j0)).
+  - apply (trace_target fx ops (init_state j0) (W_init j0)).
 Qed.
 
-(* clauses 1-7, 10, 11 *)
+(* clauses 1-7, 10, 11, 12 *)
 Theorem core_all_histories j0 ops : C17_core j0 ops (observe_fx true j0 ops).
 Proof.
-  destruct (core_fx true j0 ops) as (L & G & A & T & O & F & U & Wa). unfold C17_core.
+  destruct (core_fx true j0 ops) as (L & G & A & T & O & F & U & Wa & Tg). unfold C17_core.
   repeat match goal with |- _ /\ _ => split end; auto.
   rewrite observe_fx_eq. intros D o e Io Ie Ev.
   apply (trace_guard true ops (init_state j0) (W_init j0) D o e Io Ie Ev). reflexivity.
@@ -85,10 +87,10 @@ Theorem prop_code_model j0 ops :
   prop_code j0 ops (observe j0 ops) = 0 \/ finding_code j0 ops (observe j0 ops) = 2.
 Proof.
   unfold observe. change recheck_same_node with true.
-  destruct (core_all_histories j0 ops) as (L & G & A & T & O & F & N & U & Wa).
+  destruct (core_all_histories j0 ops) as (L & G & A & T & O & F & N & U & Wa & Tg).
   assert (P := prop_code_tail j0 ops _ L G A T O F).
   apply evict_other_nodeb_spec in N. apply unbound_guardb_spec in U. apply write_absorbingb_spec in Wa.
-  rewrite N, U, Wa in P. cbn in P.
+  apply evict_targetb_spec in Tg. rewrite N, U, Wa, Tg in P. cbn in P.
   unfold finding_code. rewrite P.
   destruct (timeout_cleansb false j0 ops (observe_fx true j0 ops)); cbn; [left; reflexivity|right].
   rewrite leak_shape. reflexivity.
@@ -99,9 +101,10 @@ Theorem old_only_known_shapes j0 ops :
   prop_code j0 ops (observe_fx false j0 ops) = 0
   \/ finding_code j0 ops (observe_fx false j0 ops) = 1 \/ finding_code j0 ops (observe_fx false j0 ops) = 2.
 Proof.
-  destruct (core_fx false j0 ops) as (L & G & A & T & O & F & U & Wa).
+  destruct (core_fx false j0 ops) as (L & G & A & T & O & F & U & Wa & Tg).
   assert (P := prop_code_tail j0 ops _ L G A T O F).
-  apply unbound_guardb_spec in U. apply write_absorbingb_spec in Wa. rewrite U, Wa in P.
+  apply unbound_guardb_spec in U. apply write_absorbingb_spec in Wa. apply evict_targetb_spec in Tg.
+  rewrite U, Wa, Tg in P.
   unfold finding_code. rewrite P.
   destruct (evict_other_nodeb j0 (observe_fx false j0 ops)) eqn:N; cbn.
   - destruct (timeout_cleansb false j0 ops (observe_fx false j0 ops)); cbn; [left; reflexivity|right; right].
